@@ -29,6 +29,25 @@
 //	        final array must be that of "Add;Reload" (B untouched) or of "Reload;Add" (B
 //	        plus x's bits under B's tweak) - anything else is not a sequential order.
 //
+//	readreload  (Round 3) half of the goroutines keep Reloading the filter with fresh copies of two messages A and B
+//	        (other size / tweak / hash-function count) that BOTH contain the items X, for ops_per_goroutine milliseconds; the other half query X (items of
+//	        20 bytes, 4 KiB and 64 KiB: the long ones keep Matches inside its loop for milliseconds) and an outpoint.
+//	        Every sequential order answers true; false is a torn read (C20:torn_read), a panic an index computed for one
+//	        message applied to the other.
+//	hammer  (Round 3) adders on 1..8-byte arrays with 50 hash functions and long runs: every Add rewrites the same few
+//	        bytes, an unlocked read-modify-write loses bits (C20:lost_insertion).
+//
+// Two binaries (Round 3).  bin/check builds this command with -race -tags verif.  Library code under `//go:build
+// !race` or `!verif` is not in such a binary, so the parent builds the command a second time with NO flag and NO tag
+// (bin/c20_prod: what users of the library compile) and runs every scenario in both; the replay names the binary.
+// Without the race detector the monitors are the answers themselves: lost insertions, read-your-insert, torn reads,
+// atomicity, panics, runtime fatal errors, hangs.
+//
+// Hangs (Round 3).  Each child has a deadline; when it passes the child gets SIGQUIT, the Go runtime prints every
+// goroutine's stack, and the C20:hang replay names the scenario, the binary and the filter methods the goroutines are
+// blocked in.  report.json is rewritten after every child; after 3 hangs, or when the time budget is used up, no
+// further child is started.
+//
 // In adders/churn every goroutine first runs MatchTxAndUpdate over one SHARED list of
 // fresh, never hashed *bchutil.Tx values (bchutil.Tx memoises its hash without
 // synchronisation: on one filter that is race free only if the method touches its argument
@@ -50,9 +69,13 @@ import (
 	"os"
 	"os/exec"
 	"regexp"
+	"runtime"
+	"path/filepath"
+	"sort"
 	"strings"
 	"sync"
 	"sync/atomic"
+	"syscall"
 	"time"
 
 	"github.com/gcash/bchd/chaincfg/chainhash"
@@ -84,6 +107,7 @@ type childViolation struct {
 type childOut struct {
 	Params     params           `json:"params"`
 	Race       bool             `json:"race_detector"`
+	Tags       bool             `json:"verif_tag"`
 	Ops        int64            `json:"operations"`
 	Init       string           `json:"init"`  // hex of the array before the goroutines start
 	Items      []string         `json:"items"` // hex, every inserted byte string
@@ -124,8 +148,35 @@ func mkTx(r *vh.RNG, known []byte) *bchutil.Tx {
 	return bchutil.NewTx(m)
 }
 
+// progress watchdog of a child: every scenario loop calls tick(); when NO goroutine has ticked for stallLimit the
+// child prints all goroutine stacks and exits with exitStalled - the parent reports C20:hang at once instead of
+// waiting for the full deadline
+var progress int64
+
+const exitStalled = 67
+const stallLimit = 30 * time.Second
+
+func tick() { atomic.AddInt64(&progress, 1) }
+
+func watchdog() {
+	last, since := int64(-1), time.Now()
+	for {
+		time.Sleep(500 * time.Millisecond)
+		if cur := atomic.LoadInt64(&progress); cur != last {
+			last, since = cur, time.Now()
+			continue
+		}
+		if time.Since(since) > stallLimit {
+			buf := make([]byte, 1<<20)
+			buf = buf[:runtime.Stack(buf, true)]
+			fmt.Fprintf(os.Stderr, "STALLED: no filter operation completed for %v\n\n%s\n", stallLimit, buf)
+			os.Exit(exitStalled)
+		}
+	}
+}
+
 func childAdders(p params, churn bool) childOut {
-	out := childOut{Params: p, Race: raceEnabled}
+	out := childOut{Params: p, Race: raceEnabled, Tags: builtWithVerifTag}
 	rng := vh.NewRNG(p.Seed)
 	msg := &wire.MsgFilterLoad{Filter: make([]byte, p.Size), HashFuncs: p.HashFuncs, Tweak: p.Tweak, Flags: wire.BloomUpdateType(p.Flags)}
 	f := bloom.LoadFilter(msg)
@@ -178,6 +229,7 @@ func childAdders(p params, churn bool) childOut {
 			var mine [][]byte
 			n := int64(0)
 			for _, tx := range shared {
+				tick()
 				got := f.MatchTxAndUpdate(tx)
 				n++
 				if !churn && !got {
@@ -185,6 +237,7 @@ func childAdders(p params, churn bool) childOut {
 				}
 			}
 			for j := 0; j < p.PerG; j++ {
+				tick()
 				c := r.Intn(20)
 				switch {
 				case c < 5:
@@ -330,7 +383,7 @@ func childAdders(p params, churn bool) childOut {
 
 // childMulti: several independent filters used at the same time (see the package comment)
 func childMulti(p params) childOut {
-	out := childOut{Params: p, Race: raceEnabled}
+	out := childOut{Params: p, Race: raceEnabled, Tags: builtWithVerifTag}
 	rng := vh.NewRNG(p.Seed)
 	nf := 2
 	if p.Goroutines >= 8 {
@@ -377,6 +430,7 @@ func childMulti(p params) childOut {
 			var mine [][]byte
 			n := int64(0)
 			for j := 0; j < p.PerG; j++ {
+				tick()
 				switch c := r.Intn(10); {
 				case c < 4:
 					var h chainhash.Hash
@@ -449,11 +503,12 @@ func childMulti(p params) childOut {
 
 // childAddReload: is one Add call atomic with respect to a concurrent Reload? (see the package comment)
 func childAddReload(p params) childOut {
-	out := childOut{Params: p, Race: raceEnabled}
+	out := childOut{Params: p, Race: raceEnabled, Tags: builtWithVerifTag}
 	rng := vh.NewRNG(p.Seed)
 	var viol []childViolation
 	var ops int64
 	for round := 0; round < p.PerG; round++ {
+		tick()
 		tA := rng.U32()
 		tB := tA + 1 + rng.U32()%1000
 		a := &wire.MsgFilterLoad{Filter: make([]byte, p.Size), HashFuncs: p.HashFuncs, Tweak: tA}
@@ -528,8 +583,118 @@ func childAddReload(p params) childOut {
 	return out
 }
 
+// childReadReload: see the package comment
+func childReadReload(p params) childOut {
+	out := childOut{Params: p, Race: raceEnabled, Tags: builtWithVerifTag}
+	rng := vh.NewRNG(p.Seed)
+	var txid chainhash.Hash
+	copy(txid[:], rng.Bytes(32))
+	op := wire.NewOutPoint(&txid, rng.U32())
+	X := [][]byte{rng.Bytes(20), rng.Bytes(4 << 10), rng.Bytes(64 << 10)}
+	type shape struct {
+		size  int
+		nh    uint32
+		tweak uint32
+	}
+	a := shape{p.Size, p.HashFuncs, p.Tweak}
+	b := shape{16, 7, p.Tweak ^ 0x9e3779b9}
+	if p.Seed%2 == 0 { // same size and hash-function count, only the tweak differs: a torn read cannot panic, only answer wrongly
+		b = shape{p.Size, p.HashFuncs, p.Tweak + 1}
+	}
+	mk := func(s shape) []byte {
+		ref := refFromBytes(make([]byte, s.size), s.nh, s.tweak)
+		for _, x := range X {
+			ref.insert(x)
+		}
+		ref.insert(refOutpoint(txid[:], op.Index))
+		return ref.bytes()
+	}
+	bytesA, bytesB := mk(a), mk(b)
+	fresh := func(which int) *wire.MsgFilterLoad {
+		if which == 0 {
+			return &wire.MsgFilterLoad{Filter: append([]byte(nil), bytesA...), HashFuncs: a.nh, Tweak: a.tweak}
+		}
+		return &wire.MsgFilterLoad{Filter: append([]byte(nil), bytesB...), HashFuncs: b.nh, Tweak: b.tweak}
+	}
+	f := bloom.LoadFilter(fresh(0))
+	var mu sync.Mutex
+	var viol []childViolation
+	violate := func(key, what string, info interface{}) {
+		mu.Lock()
+		if len(viol) < 5 {
+			viol = append(viol, childViolation{key, what, info})
+		}
+		mu.Unlock()
+	}
+	writers := p.Goroutines / 2
+	if writers < 1 {
+		writers = 1
+	}
+	var ops int64
+	var writersLeft int32 = int32(writers)
+	start := make(chan struct{})
+	var wg sync.WaitGroup
+	for g := 0; g < p.Goroutines; g++ {
+		wg.Add(1)
+		r := rng.Fork(fmt.Sprintf("g%d", g))
+		go func(g int, r *vh.RNG) {
+			defer wg.Done()
+			defer func() {
+				if e := recover(); e != nil {
+					if g < writers {
+						atomic.AddInt32(&writersLeft, -1)
+					}
+					violate("C20:panic", fmt.Sprintf("a filter operation panicked while the filter was being reloaded: %v", e), map[string]interface{}{"goroutine": g, "role": map[bool]string{true: "reloader", false: "reader"}[g < writers]})
+				}
+			}()
+			<-start
+			n := int64(0)
+			if g < writers {
+				stopAt := time.Now().Add(time.Duration(p.PerG) * time.Millisecond) // ops_per_goroutine = run time in ms here
+				for time.Now().Before(stopAt) {
+					tick()
+					f.Reload(fresh(r.Intn(2)))
+					n++
+					time.Sleep(time.Duration(20+r.Intn(300)) * time.Microsecond)
+				}
+				atomic.AddInt32(&writersLeft, -1)
+			} else {
+				for atomic.LoadInt32(&writersLeft) > 0 {
+					tick()
+					k := r.Intn(len(X) + 2)
+					switch {
+					case k < len(X):
+						if !f.Matches(X[k]) {
+							violate("C20:torn_read", "Matches(x) answered false although every message ever loaded contains x: no sequential order of the calls gives that answer",
+								map[string]interface{}{"goroutine": g, "item_bytes": len(X[k])})
+						}
+					case k == len(X):
+						if !f.MatchesOutPoint(op) {
+							violate("C20:torn_read", "MatchesOutPoint(o) answered false although every message ever loaded contains o", map[string]interface{}{"goroutine": g})
+						}
+					default:
+						if !f.IsLoaded() {
+							violate("C20:state", "IsLoaded false although nobody unloads", nil)
+						}
+					}
+					n++
+				}
+			}
+			atomic.AddInt64(&ops, n)
+		}(g, r)
+	}
+	close(start)
+	wg.Wait()
+	out.Ops = ops
+	if m := f.MsgFilterLoad(); m == nil || !(bytes.Equal(m.Filter, bytesA) || bytes.Equal(m.Filter, bytesB)) {
+		violate("C20:atomicity", "after the join the loaded array is neither of the two messages that were ever loaded", nil)
+	}
+	out.Violations = viol
+	return out
+}
+
 func childGCS(p params) childOut {
-	out := childOut{Params: p, Race: raceEnabled}
+	out := childOut{Params: p, Race: raceEnabled, Tags: builtWithVerifTag}
 	rng := vh.NewRNG(p.Seed)
 	var key [gcs.KeySize]byte
 	copy(key[:], rng.Bytes(16))
@@ -632,6 +797,7 @@ func childGCS(p params) childOut {
 			defer wg.Done()
 			<-start
 			for j := 0; j < p.PerG; j++ {
+				tick()
 				x := qs[r.Intn(len(qs))]
 				var got bool
 				var which int
@@ -728,22 +894,90 @@ var cases *vh.Cases
 
 var bloomFn = regexp.MustCompile(`(bloom|gcs)\.\(\*Filter\)\.([A-Za-z]+)`)
 
+// the two binaries the scenarios run in
+type binary struct {
+	Path string
+	Name string // "race" | "production"
+}
+
+var binaries []binary
+var hangs, launched, skipped int
+var t0 = time.Now()
+var budget time.Duration
+var childDeadline = 120 * time.Second
+
+var blockedFn = regexp.MustCompile(`(bloom|gcs)\.\(?\*?Filter\)?\.([A-Za-z]+)`)
+
+// blockedIn: from a SIGQUIT goroutine dump, the filter methods goroutines are parked in (with counts)
+func blockedIn(dump string) []string {
+	cnt := map[string]int{}
+	for _, g := range strings.Split(dump, "\n\ngoroutine ") {
+		if !strings.Contains(g, "semacquire") && !strings.Contains(g, "sync.(*Mutex)") && !strings.Contains(g, "[sync.Mutex.Lock") {
+			continue
+		}
+		if m := blockedFn.FindStringSubmatch(g); m != nil {
+			cnt[m[1]+".Filter."+m[2]]++
+		}
+	}
+	var out []string
+	for k, v := range cnt {
+		out = append(out, fmt.Sprintf("%s (%d goroutines waiting for the mutex)", k, v))
+	}
+	sort.Strings(out)
+	return out
+}
+
 func runChild(p params) {
+	for _, b := range binaries {
+		runChildIn(p, b)
+	}
+}
+
+func runChildIn(p params, b binary) {
+	if hangs >= 3 || (budget > 0 && time.Since(t0) > budget) {
+		skipped++
+		rep.Extra["children_not_started"] = fmt.Sprintf("%d (after %d hangs / %.0f s of a %.0f s budget)", skipped, hangs, time.Since(t0).Seconds(), budget.Seconds())
+		return
+	}
+	launched++
+	defer func() { rep.Cases = cases.Len(); rep.Write(cfg) }() // the report on disk is always current: a later hang or kill of the harness loses nothing
 	pj, _ := json.Marshal(p)
-	outFile := fmt.Sprintf("%s/child_%s_%d_%d.json", cfg.Out, p.Scenario, p.Goroutines, p.Seed)
-	ctx, cancel := context.WithTimeout(context.Background(), 120*time.Second)
+	outFile := fmt.Sprintf("%s/child_%s_%s_%d_%d.json", cfg.Out, b.Name, p.Scenario, p.Goroutines, p.Seed)
+	ctx, cancel := context.WithTimeout(context.Background(), childDeadline)
 	defer cancel()
-	cmd := exec.CommandContext(ctx, os.Args[0], "-child", string(pj), "-childout", outFile)
-	cmd.Env = append(os.Environ(), "GORACE=halt_on_error=0 exitcode=66")
+	cmd := exec.CommandContext(ctx, b.Path, "-child", string(pj), "-childout", outFile)
+	cmd.Cancel = func() error { return cmd.Process.Signal(syscall.SIGQUIT) } // the runtime dumps all goroutine stacks and exits
+	cmd.WaitDelay = 15 * time.Second
+	cmd.Env = append(os.Environ(), "GORACE=halt_on_error=0 exitcode=66", "GOTRACEBACK=all")
 	var stderr bytes.Buffer
 	cmd.Stderr = &stderr
 	err := cmd.Run()
 	se := stderr.String()
-	replay := map[string]interface{}{"stress": p}
+	replay := map[string]interface{}{"stress": p, "binary": b.Name}
 	kind := "stress:" + p.Scenario
+	if b.Name != "race" {
+		kind += ":" + b.Name
+	}
+	stalled := false
+	if ee, ok := err.(*exec.ExitError); ok && ee.ExitCode() == exitStalled {
+		stalled = true
+	}
 	switch {
-	case ctx.Err() != nil:
-		rep.Violate("C20:hang", "the stress run did not finish within 120 s (deadlock or livelock in the filter)", replay)
+	case ctx.Err() != nil || stalled:
+		hangs++
+		where := blockedIn(se)
+		replay["blocked_in"] = where
+		if i := strings.Index(se, "goroutine "); i >= 0 {
+			d := se[i:]
+			if j := strings.Index(d, "bchutil/bloom."); j > 600 {
+				d = d[j-600:]
+			}
+			if len(d) > 2500 {
+				d = d[:2500]
+			}
+			replay["goroutine_dump_excerpt"] = d
+		}
+		rep.Violate("C20:hang", fmt.Sprintf("stress scenario %q (%s binary, %d goroutines) made no progress for %.0f s / did not finish within %.0f s: deadlock or livelock in the filter %v", p.Scenario, b.Name, p.Goroutines, stallLimit.Seconds(), childDeadline.Seconds(), where), replay)
 	case strings.Contains(se, "WARNING: DATA RACE"):
 		first := se[strings.Index(se, "WARNING: DATA RACE"):]
 		if i := strings.Index(first, "\n=================="); i > 0 {
@@ -764,6 +998,9 @@ func runChild(p params) {
 			i = strings.Index(se, "panic:")
 		}
 		msg := se[i:]
+		if strings.Contains(msg, "all goroutines are asleep") {
+			replay["blocked_in"] = blockedIn(msg)
+		}
 		if len(msg) > 1500 {
 			msg = msg[:1500]
 		}
@@ -787,15 +1024,15 @@ func runChild(p params) {
 	rep.Evaluations += int(co.Ops) // operations executed concurrently
 	rep.Count(kind, string(pj), p.Goroutines > 1)
 	rep.Histogram[fmt.Sprintf("goroutines:%d", p.Goroutines)]++
-	if !co.Race {
+	if !co.Race && b.Name == "race" {
 		rep.Extra["race_detector"] = false
 	}
 	for _, v := range co.Violations {
-		r := map[string]interface{}{"stress": p, "info": v.Info}
+		r := map[string]interface{}{"stress": p, "binary": b.Name, "info": v.Info}
 		rep.Violate(v.Key, v.What, r)
 	}
 	// the Coq model recomputes the array from the items (cost ~ items x hash functions): keep the case affordable
-	if p.Scenario == "adders" && co.Final != "" && !cfg.Search && len(co.Items)*int(p.HashFuncs+1) <= 9000 {
+	if p.Scenario == "adders" && b.Name == "race" && co.Final != "" && !cfg.Search && len(co.Items)*int(p.HashFuncs+1) <= 9000 {
 		items := make([]string, len(co.Items))
 		for i, it := range co.Items {
 			items[i] = vh.CoqBytes(mustHex(it))
@@ -814,6 +1051,32 @@ func runChild(p params) {
 			len(fin), chunked(len(nz), func(lo, hi int) string { return vh.CoqList(nz[lo:hi]) }), p.HashFuncs, p.Tweak, p.Flags)
 		cases.Add(term, map[string]interface{}{"kind": "concurrent-final", "stress": p, "items": len(items)})
 	}
+}
+
+// buildProduction: `go build` of this command with no flag and no tag, against the same module graph the driver
+// used (GOFLAGS, incl. -modfile on mutation runs, is inherited)
+func buildProduction() (string, error) {
+	dir := ""
+	if exe, err := os.Executable(); err == nil {
+		d := filepath.Dir(filepath.Dir(exe))
+		if _, err := os.Stat(filepath.Join(d, "go.mod")); err == nil {
+			dir = d
+		}
+	}
+	if dir == "" {
+		dir, _ = os.Getwd()
+	}
+	bin := filepath.Join(dir, "bin", "c20_prod")
+	cmd := exec.Command("go", "build", "-o", bin, "./cmd/c20")
+	cmd.Dir = dir
+	if out, err := cmd.CombinedOutput(); err != nil {
+		o := string(out)
+		if len(o) > 1500 {
+			o = o[:1500]
+		}
+		return "", fmt.Errorf("go build ./cmd/c20: %v: %s", err, o)
+	}
+	return bin, nil
 }
 
 func chunked(n int, part func(lo, hi int) string) string {
@@ -839,6 +1102,7 @@ func main() {
 	if *child != "" {
 		var p params
 		vh.Must(json.Unmarshal([]byte(*child), &p))
+		go watchdog()
 		var co childOut
 		switch p.Scenario {
 		case "adders":
@@ -851,6 +1115,8 @@ func main() {
 			co = childMulti(p)
 		case "addreload":
 			co = childAddReload(p)
+		case "readreload":
+			co = childReadReload(p)
 		}
 		j, _ := json.Marshal(co)
 		vh.Must(os.WriteFile(*childOutF, j, 0o644))
@@ -863,17 +1129,50 @@ func main() {
 	rep.Extra["evidence_kind"] = "runtime evidence: schedules are whatever the Go scheduler produced; data-race freedom is observed by the race detector, not proved"
 	rng := vh.NewRNG(cfg.Seed)
 
+	// the binaries: this one (as built by the driver: -race -tags verif) and the production configuration
+	self := "race"
+	if !raceEnabled {
+		self = "as-built-without-race"
+		if !builtWithVerifTag {
+			self = "production"
+		}
+	}
+	binaries = []binary{{os.Args[0], self}}
+	if self != "production" {
+		if pb, err := buildProduction(); err != nil {
+			rep.Extra["production_binary"] = "NOT BUILT: " + err.Error()
+			fmt.Fprintln(os.Stderr, "c20: production binary not built:", err)
+		} else {
+			binaries = append(binaries, binary{pb, "production"})
+			rep.Extra["production_binary"] = "cmd/c20 rebuilt with plain `go build` (no -race, no build tag) and every scenario run in it as well: code under //go:build !race or !verif is observed there"
+		}
+	}
+	budget = time.Duration(cfg.Scale(700, 900)) * time.Second
+	if cfg.Search {
+		budget = 700 * time.Second
+	}
+
 	if cfg.Replay != "" {
 		raw, err := os.ReadFile(cfg.Replay)
 		vh.Must(err)
 		var rp struct {
 			Input struct {
 				Stress *params `json:"stress"`
+				Binary string  `json:"binary"`
 			} `json:"input"`
 		}
 		vh.Must(json.Unmarshal(raw, &rp))
 		if rp.Input.Stress != nil {
-			for i := 0; i < 5; i++ { // schedules differ from run to run
+			var use []binary
+			for _, b := range binaries {
+				if b.Name == rp.Input.Binary {
+					use = append(use, b)
+				}
+			}
+			if len(use) > 0 {
+				binaries = use
+			}
+			for i := 0; i < 5 && hangs == 0; i++ { // schedules differ from run to run
 				runChild(*rp.Input.Stress)
 			}
 		}
@@ -913,6 +1212,12 @@ func main() {
 				if k == 2 || k == 4 || cfg.Thorough() || cfg.Search {
 					runChild(params{Scenario: "addreload", Goroutines: k, PerG: cfg.Scale(4, 8), Size: vh.Pick(r, []int{64, 1024}), HashFuncs: uint32(10 + r.Intn(20)), Seed: r.U64()})
 				}
+				if k == 4 || k == 16 || cfg.Thorough() || cfg.Search {
+					runChild(params{Scenario: "readreload", Goroutines: k, PerG: cfg.Scale(1200, 4000), Size: vh.Pick(r, []int{64, 512, 4096}), HashFuncs: uint32(10 + r.Intn(41)), Tweak: r.U32(), Seed: r.U64()})
+				}
+				if k == 8 || k == 32 || cfg.Thorough() || cfg.Search { // hammer: tiny array, 50 hash functions, long runs
+					runChild(params{Scenario: "adders", Goroutines: k, PerG: cfg.Scale(4000, 20000) / k * 4, Size: 1 + r.Intn(8), HashFuncs: 50, Tweak: r.U32(), Flags: uint32(wire.BloomUpdateNone), Seed: r.U64()})
+				}
 				if k == 2 || k == 8 || k == 32 || cfg.Thorough() || cfg.Search {
 					runChild(params{Scenario: "multi", Goroutines: k, PerG: perG, Size: vh.Pick(r, []int{8, 64, 512}), HashFuncs: uint32(1 + r.Intn(10)), Tweak: r.U32(), Flags: uint32(wire.BloomUpdateAll), Seed: r.U64()})
 				}
@@ -924,6 +1229,7 @@ func main() {
 		vh.Must(err)
 	}
 	rep.Cases = cases.Len()
+	rep.Extra["children"] = fmt.Sprintf("%d stress children run (%d binaries), %d hangs, %d not started", launched, len(binaries), hangs, skipped)
 	rep.Sample(map[string]interface{}{"scenario": "adders", "what": "k goroutines x Add/AddHash/AddOutPoint/MatchTxAndUpdate + reads; final array == OR of all insertions; Matches(x) after Add(x) returned"}, 4)
 	vh.Must(rep.Write(cfg))
 	fmt.Printf("c20: race detector %v, %d concurrent operations, %d stress runs with >1 goroutine, %d cases, %d violations\n", raceEnabled, rep.Evaluations, rep.Nontrivial, cases.Len(), len(rep.Violations))
